@@ -264,7 +264,20 @@ def check_config(ctx, T, cfg, tier, seed):
         with np.errstate(all="ignore"):
             dy = np.diff(y)
             mag = np.maximum(np.maximum(np.abs(y[1:]), np.abs(y[:-1])), yflo)
-            dec = ~(dy >= -1e-12 * mag)
+            # (z**lam - 1)/lam cancels for tiny |lam| (|2-lam| on YeoJohnson's negative branch): the computed
+            # forward carries an absolute rounding noise of about eps/|lam| that no implementation of the
+            # textbook formula avoids ("equality only within rounding")
+            noise = 0.0
+            lams = []
+            if "lam" in p:
+                lams.append(abs(p["lam"]))
+                if cls == "YeoJohnson":
+                    lams.append(abs(2.0 - p["lam"]))
+            lams = [l for l in lams if 0 < l < 1e-3]
+            if lams:
+                noise = 16 * 2.220446049250313e-16 / min(lams)
+                ctx.count("monotonic.noise_floor_from_tiny_exponent")
+            dec = ~(dy >= -(1e-12 * mag + noise))
             dref = np.diff(yrin)
             mref = np.maximum(np.maximum(np.abs(yrin[1:]), np.abs(yrin[:-1])), yflo)
             strict = dref > 1e-9 * mref
